@@ -265,7 +265,7 @@ func c11Arrange(asc []time.Duration, order int) []time.Duration {
 
 func TestC11(t *testing.T) {
 	R := ev.New("C11")
-	R.Rule = "(a) every sequence of length 1..6 over {1,2,3,1e3,1e6,1e12}ns, with and without a Close after every Add; (b) 8 structured families (constant, ramp, bimodal with a 1e9 gap at the 50/90/95/99% split, geometric plateaus, saw-tooth) for every n in 1..N and two-valued inputs with every split k/n for n<=60, each in sorted, reversed and interleaved arrival order; a case is distinct+non-trivial when its (arrival sequence, close mode) differs and it holds at least two different latencies (otherwise no percentile can be mis-ordered or mis-ranked)"
+	R.Rule = "(a) every sequence of length 1..6 over {1,2,3,1e3,1e6,1e12}ns, with and without a Close after every Add; (b) 8 structured families (constant, ramp, bimodal with a 1e9 gap at the 50/90/95/99% split, geometric plateaus, saw-tooth) for every n in 1..N (quick: additionally n=500,600..3000) and two-valued inputs with every split k/n for n<=60, each in sorted, reversed and interleaved arrival order; a case is distinct+non-trivial when its (arrival sequence, close mode) differs and it holds at least two different latencies (otherwise no percentile can be mis-ordered or mis-ranked)"
 	R.Assume("random (uniform / log-normal) draws are outside a bounded exhaustive check; every n up to N is run for each structured family instead")
 	R.Assume("rank of an observed latency = its position in the sorted input counted from 0 or from 1, whichever is favourable, and with ties the favourable position (weaker reading: the statement fixes neither; the mid-point interpolation the estimator performs exactly for small n is within the bound for origin 0 and up to 0.5 rank outside for origin 1)")
 	alpha := []time.Duration{1, 2, 3, 1e3, 1e6, 1e12}
@@ -335,6 +335,16 @@ func TestC11(t *testing.T) {
 				jobs = append(jobs, job{-1, n, k})
 			}
 		}
+	}
+	if !ev.Thorough() { // quick: beyond N only every 100th n up to the thorough N
+		var stride []int
+		for n := 500; n <= 3000; n += 100 {
+			stride = append(stride, n)
+			for f := range fams {
+				jobs = append(jobs, job{f, n, 0})
+			}
+		}
+		R.Set("n_beyond_N_stride_100", stride)
 	}
 	if ev.Thorough() { // scale check beyond N (labelled: not every n)
 		for _, n := range []int{10000, 100000} {
